@@ -20,7 +20,7 @@ LEVEL_TEXT = ("Generated mean-field problems are run through both library routes
               "field is re-derived step by step with the Heun rule from the returned states and times (1e-12), and against "
               "the closed form for equations linear in time. Exploration at small sizes, conditioned baths.")
 LEVEL_NOTE = "Truncation tolerance c_T=100 (N+1) eps max(1,|a|) + 1e-7 for the method comparison (calibrated in DESIGN section 6)."
-ASSUMPTIONS = ["TEMPO inputs are conditioned (D <= 5) and size-coupled as in DESIGN section 4"]
+ASSUMPTIONS = ["TEMPO inputs are conditioned (D <= 3.5) and size-coupled as in DESIGN section 4"]
 
 
 @st.composite
